@@ -23,7 +23,7 @@ open Lean Usid.J
 
 def handlers : List (String × (Json → R Json)) := [
   ("proc.ranks", hProcRanks),
-  ("proc.socket", hSocket),
+  ("proc.socket", hSocket), ("sync.safe", hSyncSafe), ("sync.run", hSyncRun),
   ("proc.run", hProcRun),
   ("crash.wf", hCrashWf), ("crash.trace", hCrashTrace), ("crash.resume", hCrashResume),
   ("grp.run", hGrpRun),
